@@ -40,6 +40,177 @@ FUNC_ALIASES = {"math.sqrt": "sqrt", "math.cos": "cos", "math.sin": "sin", "math
                 "math.log": "log", "math.floor": "floor", "math.ceil": "ceil", "builtins.str": "str", "builtins.len": "len", "math.cbrt": "cbrt",
                 "builtins.tuple": "tuple", "builtins.isinstance": "isinstance", "builtins.all": "all", "builtins.any": "any", "builtins.bool": "bool"}
 RAISE = ("raise",)
+import string as _string
+STD_CONSTS = {f"string.{n}": getattr(_string, n) for n in ("hexdigits", "digits", "ascii_lowercase", "ascii_uppercase", "ascii_letters", "octdigits", "whitespace")}
+
+
+class _Term(ast.expr):
+    """An already evaluated value spliced into synthetic statements (loop unrolling)."""
+    _fields = ()
+
+    def __init__(self, term):
+        super().__init__()
+        self.term = term
+
+
+def module_value(project, q: str):
+    """Value of a module-level name of the package whose defining expression is readable (constants, tuples,
+    arithmetic on constants, compiled patterns); None when the name is not such a constant."""
+    cache = project.__dict__.setdefault("_fs_module_values", {})
+    if q in cache:
+        return cache[q]
+    cache[q] = None
+    mod, _, nm = q.rpartition(".")
+    m = project.modules.get(mod)
+    if m is None or nm not in m.top_assigns:
+        return None
+    n_stores = sum(1 for n in ast.walk(m.tree) if isinstance(n, ast.Name) and n.id == nm and isinstance(n.ctx, (ast.Store, ast.Del)))
+    n_global = sum(1 for n in ast.walk(m.tree) if isinstance(n, ast.Global) and nm in n.names)
+    if n_stores != 1 or n_global:
+        return None          # rebound somewhere: not a constant
+    if isinstance(m.top_assigns[nm], (ast.Dict, ast.List, ast.Set, ast.ListComp, ast.DictComp, ast.SetComp)):
+        # a mutable container: a constant only if nothing in the package writes into it
+        for m2 in project.modules.values():
+            for n in ast.walk(m2.tree):
+                if isinstance(n, (ast.Subscript, ast.Attribute)) and isinstance(n.ctx, (ast.Store, ast.Del)) and isinstance(n.value, (ast.Name, ast.Attribute)) and (getattr(n.value, "id", None) == nm or getattr(n.value, "attr", None) == nm):
+                    return None
+                if isinstance(n, ast.Call) and isinstance(n.func, ast.Attribute) and n.func.attr in ("append", "extend", "insert", "pop", "remove", "clear", "update", "setdefault", "popitem", "add", "discard", "sort", "reverse") \
+                        and isinstance(n.func.value, (ast.Name, ast.Attribute)) and (getattr(n.func.value, "id", None) == nm or getattr(n.func.value, "attr", None) == nm):
+                    return None
+                if isinstance(n, ast.AugAssign) and isinstance(n.target, ast.Name) and n.target.id == nm:
+                    return None
+    ex = Extractor(project, None, None, Scope(project, None, module=m))
+    try:
+        v = ex.ev(m.top_assigns[nm], {})
+    except Unsupported:
+        return None
+    if has_free_var(v):
+        return None
+    cache[q] = v
+    return v
+
+
+def has_free_var(t) -> bool:
+    if not isinstance(t, tuple) or not t:
+        return False
+    if t[0] == "var":
+        return True
+    return any(has_free_var(x) or (isinstance(x, tuple) and x and not isinstance(x[0], str) and any(has_free_var(y) for y in x)) for x in t[1:] if isinstance(x, tuple))
+
+
+def mk_call(q, args):
+    args = tuple(args)
+    nkw = not any(a[0] == "kw" for a in args)
+    if q in ("builtins.pow", "math.pow") and len(args) == 2:
+        return binop("**", args[0], args[1])
+    if q in ("math.fmod", "math.remainder") and len(args) == 2:
+        return ("bin", q.split(".")[1], args[0], args[1])       # same shape as %, different operator
+    if q == "math.sqrt" and len(args) == 1:
+        return ("call", "sqrt", args)
+    if q in ("builtins.max", "builtins.min", "max", "min") and nkw:
+        if len(args) == 1 and args[0][0] == "tuple" and len(args[0][1]) >= 2:
+            args = args[0][1]
+        if len(args) >= 2:
+            return mk_minmax(q.rsplit(".", 1)[-1], list(args))
+    if q in ("builtins.abs", "math.fabs", "abs") and len(args) == 1:
+        x = args[0]
+        if is_num(x):
+            return num(abs(x[1]))
+        if x[0] == "op" and x[1] == "+" and len(x[2]) == 2 and sum(1 for y in x[2] if y[0] == "neg") == 1:
+            pos = [y for y in x[2] if y[0] != "neg"][0]
+            ng = [y for y in x[2] if y[0] == "neg"][0][1]
+            lo, hi = sorted([pos, ng], key=repr)     # |a - b| == |b - a|
+            return ("call", "abs", (("op", "+", (lo, ("neg", hi))),))
+        return ("call", "abs", args)
+    if q in ("builtins.isinstance", "isinstance") and len(args) == 2:
+        if args[1][0] == "op" and args[1][1] == "classes":
+            return ("call", "isinstance", args)
+        classes = args[1][1] if args[1][0] == "tuple" else (args[1],)
+        return ("call", "isinstance", (args[0], ("op", "classes", tuple(classes))))   # class set: unordered
+    if q in ("builtins.tuple", "builtins.list", "tuple", "list") and len(args) == 1 and args[0][0] == "tuple":
+        return args[0]
+    if q in ("types.MappingProxyType", "builtins.dict", "dict") and len(args) == 1 and args[0][0] == "dict":
+        return args[0]      # a read-only / copied view of a literal mapping maps the same keys to the same values
+    if q in ("builtins.all", "builtins.any", "all", "any") and len(args) == 1 and args[0][0] == "tuple":
+        return mk_bool("and" if q.endswith("all") else "or", args[0][1])
+    if q in ("builtins.len", "len") and len(args) == 1 and args[0][0] in ("tuple", "str"):
+        return num(len(args[0][1]))
+    if q in ("builtins.bool", "bool") and len(args) == 1 and is_boolish(args[0]):
+        return args[0]
+    if q in ("builtins.float", "float") and len(args) == 1 and is_num(args[0]) and not isinstance(args[0][1], bool):
+        return num(float(args[0][1]))
+    if q in ("re.match", "re.fullmatch", "re.search") and len(args) >= 2:
+        return ("call", q, args)
+    if q in FUNC_ALIASES:
+        return ("call", FUNC_ALIASES[q], args)
+    return ("call", q, args)
+
+
+def format_to_fstr(tmpl: str, args):
+    """'rgb({}, {})'.format(a, b) as the equivalent f-string parts; None when the template is not that simple."""
+    import string
+    parts = []
+    auto = 0
+    pos = [a for a in args if a[0] != "kw"]
+    kws = {a[1]: a[2] for a in args if a[0] == "kw"}
+    try:
+        for lit, field, spec, conv in string.Formatter().parse(tmpl):
+            if lit:
+                parts.append(("str", lit))
+            if field is None:
+                continue
+            if conv or (spec and "{" in spec):
+                return None
+            if field == "":
+                val = pos[auto]
+                auto += 1
+            elif field.isdigit():
+                val = pos[int(field)]
+            elif field in kws:
+                val = kws[field]
+            else:
+                return None
+            parts.append(("fmt", val, spec or ""))
+    except (ValueError, IndexError):
+        return None
+    return mk_fstr(parts)
+
+
+def mk_fstr(parts):
+    out = []
+    for p_ in parts:
+        if p_[0] == "str" and out and out[-1][0] == "str":
+            out[-1] = ("str", out[-1][1] + p_[1])
+        elif p_[0] == "fmt" and p_[1][0] == "str" and not p_[2]:
+            out.append(("str", p_[1][1]))
+            if len(out) > 1 and out[-2][0] == "str":
+                out[-2:] = [("str", out[-2][1] + out[-1][1])]
+        else:
+            out.append(p_)
+    if len(out) == 1 and out[0][0] == "str":
+        return out[0]
+    return ("fstr", tuple(out))
+
+
+def mk_method(name, base, args):
+    args = tuple(args)
+    if name == "format" and base[0] == "str":
+        r = format_to_fstr(base[1], args)
+        if r is not None:
+            return r
+    if name in ("startswith", "endswith") and len(args) == 1 and args[0][0] == "tuple" and args[0][1]:
+        return mk_bool("or", tuple(("method", name, base, (x,)) for x in args[0][1]))
+    if name in ("match", "fullmatch", "search") and base[0] == "call" and base[1] == "re.compile" and len(base[2]) >= 1:
+        return ("call", f"re.{name}", tuple(base[2][:1]) + args + tuple(base[2][1:]))
+    if name == "get" and base[0] == "dict" and len(args) in (1, 2) and all(a[0] != "kw" for a in args):
+        # lookup in a literal mapping == the if/elif chain over its keys
+        out = args[1] if len(args) == 2 else ("lit", None)
+        for kv in reversed(base[1]):
+            out = ite(mk_cmp("==", args[0], kv[1][0]), kv[1][1], out)
+        return out
+    if name in ("lower", "upper", "strip") and base[0] == "str" and not args:
+        return ("str", getattr(base[1], name)())
+    return ("method", name, base, args)
 
 
 def num(v):
@@ -85,15 +256,14 @@ class Extractor:
         """Record range facts that hold after a validation `if <cond>: raise` (used by interval analysis)."""
         if not hasattr(self, "constraints"):
             self.constraints = []
-        if cond[0] == "not" and cond[1][0] == "not":
-            return self.learn(cond[1][1])
+        if cond[0] == "not":
+            pushed = mk_not(cond[1])
+            if pushed[0] != "not":
+                return self.learn(pushed)
+            return
         if cond[0] == "and":
             for c in cond[1]:
                 self.learn(c)
-            return
-        if cond[0] == "not" and cond[1][0] == "or":
-            for c in cond[1][1]:
-                self.learn(("not", c))
             return
         if cond[0] == "cmp":
             op, a, b = cond[1], cond[2], cond[3]
@@ -137,16 +307,25 @@ class Extractor:
             q = self.resolve(e)
             if q in MATH_CONSTS:
                 return num(MATH_CONSTS[q])
+            if q in STD_CONSTS:
+                return ("str", STD_CONSTS[q])
             if q and self.project is not None:
-                mod, _, nm = q.rpartition(".")
-                m = self.project.modules.get(mod)
-                if m and nm in m.top_assigns and isinstance(m.top_assigns[nm], ast.Constant):
-                    return self.ev(m.top_assigns[nm], {})
+                v = module_value(self.project, q)
+                if v is not None:
+                    return v
             return ("var", e.id)
+        if isinstance(e, _Term):
+            return e.term
         if isinstance(e, ast.Attribute):
             q = self.resolve(e)
             if q in MATH_CONSTS:
                 return num(MATH_CONSTS[q])
+            if q in STD_CONSTS:
+                return ("str", STD_CONSTS[q])
+            if q and self.project is not None and not (isinstance(e.value, ast.Name) and e.value.id in env):
+                v = module_value(self.project, q)
+                if v is not None:
+                    return v
             return ("attr", self.ev(e.value, env), e.attr)
         if isinstance(e, ast.UnaryOp):
             v = self.ev(e.operand, env)
@@ -155,7 +334,7 @@ class Extractor:
             if isinstance(e.op, ast.UAdd):
                 return v
             if isinstance(e.op, ast.Not):
-                return ("not", v)
+                return mk_not(v)
             raise Unsupported(f"unary {type(e.op).__name__}")
         if isinstance(e, ast.BinOp):
             op = BINOPS.get(type(e.op))
@@ -167,16 +346,18 @@ class Extractor:
             left = self.ev(e.left, env)
             for o, c in zip(e.ops, e.comparators):
                 right = self.ev(c, env)
-                parts.append(("cmp", CMPOPS[type(o)], left, right))
+                parts.append(mk_cmp(CMPOPS[type(o)], left, right))
                 left = right
-            return parts[0] if len(parts) == 1 else ("and", tuple(parts))
+            return parts[0] if len(parts) == 1 else mk_bool("and", tuple(parts))
         if isinstance(e, ast.BoolOp):
             vals = tuple(self.ev(v, env) for v in e.values)
-            return ("and" if isinstance(e.op, ast.And) else "or", vals)
+            return mk_bool("and" if isinstance(e.op, ast.And) else "or", vals)
         if isinstance(e, ast.IfExp):
             return ite(self.ev(e.test, env), self.ev(e.body, env), self.ev(e.orelse, env))
         if isinstance(e, (ast.Tuple, ast.List)):
             return ("tuple", tuple(self.ev(x, env) for x in e.elts))
+        if isinstance(e, ast.Dict) and all(k is not None for k in e.keys) and len(e.keys) <= 64:
+            return ("dict", tuple(("tuple", (self.ev(k, env), self.ev(v, env))) for k, v in zip(e.keys, e.values)))
         if isinstance(e, ast.Subscript):
             base = self.ev(e.value, env)
             if isinstance(e.slice, ast.Slice):
@@ -184,9 +365,7 @@ class Extractor:
                 hi = self.ev(e.slice.upper, env) if e.slice.upper is not None else ("lit", None)
                 return ("slice", base, lo, hi)
             idx = self.ev(e.slice, env)
-            if base[0] == "tuple" and is_num(idx) and isinstance(idx[1], int) and -len(base[1]) <= idx[1] < len(base[1]):
-                return base[1][idx[1]]
-            return ("index", base, idx)
+            return rebuild_node(("index", base, idx))
         if isinstance(e, ast.Call):
             return self.call(e, env)
         if isinstance(e, ast.JoinedStr):
@@ -197,7 +376,7 @@ class Extractor:
                 else:
                     spec = "".join(x.value for x in v.format_spec.values if isinstance(x, ast.Constant)) if v.format_spec is not None else ""
                     parts.append(("fmt", self.ev(v.value, env), spec))
-            return ("fstr", tuple(parts))
+            return mk_fstr(parts)
         if isinstance(e, (ast.ListComp, ast.GeneratorExp)) and len(e.generators) == 1 and e.generators[0].ifs and isinstance(e.generators[0].target, ast.Name):
             g = e.generators[0]
             seq = self.ev(g.iter, env)
@@ -221,46 +400,55 @@ class Extractor:
         args = [self.ev(a, env) for a in e.args]
         if e.keywords:
             args += [("kw", k.arg, self.ev(k.value, env)) for k in e.keywords]
-        if isinstance(e.func, ast.Name) and e.func.id in self.local_funcs:
+        if isinstance(e.func, ast.Name) and e.func.id in self.local_funcs and e.func.id not in env:
+            r = self.inline_local(self.local_funcs[e.func.id], args, env)
+            if r is not None:
+                return r
             return ("call", self.local_prefix + e.func.id, tuple(args))
         q = self.resolve(e.func)
         if q is None and self.scope is not None:
             q = self.scope.resolve_call(e)
-        if q in ("builtins.pow", "math.pow") and len(args) == 2:
-            return binop("**", args[0], args[1])
-        if q in ("math.fmod", "math.remainder") and len(args) == 2:
-            return ("bin", q.split(".")[1], args[0], args[1])       # same shape as %, different operator
-        if q == "math.sqrt" and len(args) == 1:
-            return ("call", "sqrt", tuple(args))
-        if q in ("builtins.max", "builtins.min") and len(args) >= 2 and not e.keywords:
-            name = FUNC_ALIASES[q]
-            if name == "min" and len(args) == 2:
-                # clamp written outside-in: min(hi, max(lo, x)) == max(lo, min(hi, x)) for lo <= hi
-                hi = [a for a in args if is_num(a)]
-                inner = [a for a in args if a[0] == "op" and a[1] == "max" and len(a[2]) == 2]
-                if len(hi) == 1 and len(inner) == 1:
-                    lo = [a for a in inner[0][2] if is_num(a)]
-                    x = [a for a in inner[0][2] if not is_num(a)]
-                    if len(lo) == 1 and len(x) == 1 and lo[0][1] <= hi[0][1]:
-                        return ("op", "max", (lo[0], ("op", "min", (hi[0], x[0]))))
-            return ("op", name, tuple(args))     # commutative: operands are aligned, not ordered
-        if q in ("builtins.abs", "math.fabs") and len(args) == 1:
-            x = args[0]
-            if x[0] == "op" and x[1] == "+" and len(x[2]) == 2 and sum(1 for y in x[2] if y[0] == "neg") == 1:
-                pos = [y for y in x[2] if y[0] != "neg"][0]
-                ng = [y for y in x[2] if y[0] == "neg"][0][1]
-                lo, hi = sorted([pos, ng], key=repr)     # |a - b| == |b - a|
-                return ("call", "abs", (("op", "+", (lo, ("neg", hi))),))
-        if q == "builtins.isinstance" and len(args) == 2:
-            classes = args[1][1] if args[1][0] == "tuple" else (args[1],)
-            return ("call", "isinstance", (args[0], ("op", "classes", tuple(classes))))   # class set: unordered
-        if q in FUNC_ALIASES:
-            return ("call", FUNC_ALIASES[q], tuple(args))
         if q is not None:
-            return ("call", q, tuple(args))
+            return mk_call(q, tuple(args))
         if isinstance(e.func, ast.Attribute):
-            return ("method", e.func.attr, self.ev(e.func.value, env), tuple(args))
+            return mk_method(e.func.attr, self.ev(e.func.value, env), tuple(args))
         raise Unsupported(f"call to {norm_text(e.func)}")
+
+    def inline_local(self, fn: ast.AST, args, env):
+        """A call of a nested function: its body evaluated in the environment of the call (closure semantics)."""
+        depth = getattr(self, "_depth", 0)
+        if depth > 6:
+            return None
+        a = fn.args
+        if a.vararg or a.kwarg:
+            return None
+        params = [x.arg for x in a.posonlyargs + a.args]
+        pos = [x for x in args if x[0] != "kw"]
+        kws = {x[1]: x[2] for x in args if x[0] == "kw"}
+        if len(pos) > len(params):
+            return None
+        bound = dict(zip(params, pos))
+        bound.update(kws)
+        defaults = dict(zip(params[len(params) - len(a.defaults):], a.defaults))
+        for kp, kd in zip(a.kwonlyargs, a.kw_defaults):
+            params.append(kp.arg)
+            if kd is not None:
+                defaults[kp.arg] = kd
+        saved = dict(self.local_funcs)
+        self._depth = depth + 1
+        try:
+            for pn in params:
+                if pn not in bound:
+                    if pn not in defaults:
+                        return None
+                    bound[pn] = self.ev(defaults[pn], env)
+            env2, ret = self.block(fn.body, {**env, **bound})
+        except Unsupported:
+            return None
+        finally:
+            self._depth = depth
+            self.local_funcs = saved
+        return ret if ret is not None else ("lit", None)
 
     # ---------------------------------------------------------------- statements
     def block(self, stmts: List[ast.stmt], env: Dict[str, tuple]):
@@ -340,14 +528,19 @@ class Extractor:
                 continue
             if isinstance(st, (ast.Import, ast.ImportFrom, ast.Pass)):
                 continue
-            if isinstance(st, ast.For) and isinstance(st.iter, (ast.Tuple, ast.List)) and len(st.iter.elts) <= 8 and isinstance(st.target, ast.Name) \
-                    and not st.orelse and not any(isinstance(x, (ast.Break, ast.Continue)) for b in st.body for x in ast.walk(b)):
-                unrolled = []
-                for elt in st.iter.elts:
-                    unrolled.append(ast.Assign(targets=[ast.Name(id=st.target.id, ctx=ast.Store())], value=elt, lineno=st.lineno))
-                    unrolled += st.body
-                env2, ret, pend2 = self._block(unrolled + list(stmts[i + 1:]), env)
-                return env2, ret, pend + pend2
+            if isinstance(st, ast.For) and not st.orelse and not any(isinstance(x, (ast.Break, ast.Continue)) for b in st.body for x in ast.walk(b)):
+                seq = self.ev(st.iter, env)
+                if seq[0] == "call" and seq[1] in ("enumerate", "builtins.enumerate") and len(seq[2]) == 1 and seq[2][0][0] == "tuple":
+                    seq = ("tuple", tuple(("tuple", (num(k), x)) for k, x in enumerate(seq[2][0][1])))
+                if seq[0] == "call" and seq[1] in ("zip", "builtins.zip") and all(a[0] == "tuple" for a in seq[2]) and seq[2]:
+                    seq = ("tuple", tuple(("tuple", tuple(row)) for row in zip(*[a[1] for a in seq[2]])))
+                if seq[0] == "tuple" and len(seq[1]) <= 24:
+                    unrolled = []
+                    for elt in seq[1]:
+                        unrolled.append(ast.Assign(targets=[st.target], value=_Term(elt), lineno=st.lineno))
+                        unrolled += st.body
+                    env2, ret, pend2 = self._block(unrolled + list(stmts[i + 1:]), env)
+                    return env2, ret, pend + pend2
             if isinstance(st, ast.Try) and not st.finalbody and not st.orelse and all(
                     len(h.body) == 1 and isinstance(h.body[0], ast.Raise) for h in st.handlers):
                 # try: <computation> except ...: raise ...   -- the handlers only convert the exception
@@ -408,10 +601,181 @@ def neg(v):
     return ("neg", v)
 
 
+NEG_OP = {"<": ">=", "<=": ">", ">": "<=", ">=": "<", "==": "!=", "!=": "==", "is": "is not", "is not": "is", "in": "not in", "not in": "in"}
+SWAP_OP = {"<": ">", "<=": ">=", ">": "<", ">=": "<=", "==": "==", "!=": "!="}
+CONST_HEADS = ("num", "str", "lit")
+
+
+def mk_cmp(op, a, b):
+    """Comparison in normal form: a constant operand goes to the right; `x in (a, b)` is `x == a or x == b`;
+    comparisons of two constants are folded."""
+    if a[0] in CONST_HEADS and b[0] in CONST_HEADS:
+        try:
+            x, y = a[1], b[1]
+            r = {"==": x == y, "!=": x != y, ">=": x >= y, ">": x > y, "<=": x <= y, "<": x < y, "is": x is y, "is not": x is not y}.get(op)
+            if r is not None:
+                return ("lit", bool(r))
+        except TypeError:
+            pass
+    if a[0] in CONST_HEADS and b[0] not in CONST_HEADS and op in SWAP_OP:
+        op, a, b = SWAP_OP[op], b, a
+    if op in ("in", "not in") and b[0] == "tuple" and 1 <= len(b[1]) <= 8:
+        parts = tuple(mk_cmp("==" if op == "in" else "!=", a, x) for x in b[1])
+        return mk_bool("or" if op == "in" else "and", parts)
+    return ("cmp", op, a, b)
+
+
+def mk_bool(k, vals):
+    """and / or in normal form: nested same-kind operands flattened, boolean literals absorbed, duplicates dropped."""
+    out = []
+    for v in vals:
+        if v[0] == k:
+            items = v[1]
+        else:
+            items = (v,)
+        for x in items:
+            if x[0] == "lit" and isinstance(x[1], bool):
+                if k == "and" and not x[1]:
+                    return ("lit", False)
+                if k == "or" and x[1]:
+                    return ("lit", True)
+                continue
+            if not any(x is y or x == y for y in out):
+                out.append(x)
+    if not out:
+        return ("lit", k == "and")
+    return out[0] if len(out) == 1 else (k, tuple(out))
+
+
+def mk_not(v):
+    """Negation pushed inward (comparisons flipped, De Morgan). NaN operands are outside this normal form."""
+    if v[0] == "lit" and isinstance(v[1], bool):
+        return ("lit", not v[1])
+    if v[0] == "not":
+        return v[1]
+    if v[0] == "cmp" and v[1] in NEG_OP:
+        return ("cmp", NEG_OP[v[1]], v[2], v[3])
+    if v[0] == "and":
+        return mk_bool("or", tuple(mk_not(x) for x in v[1]))
+    if v[0] == "or":
+        return mk_bool("and", tuple(mk_not(x) for x in v[1]))
+    return ("not", v)
+
+
+def _facts_of(c, truth, out):
+    if c[0] == "lit":
+        return
+    out.append((c, truth))
+    n = mk_not(c)
+    if n[0] != "not":
+        out.append((n, not truth))
+    if c[0] == "not":
+        _facts_of(c[1], not truth, out)
+    if c[0] == "and" and truth:
+        for x in c[1]:
+            _facts_of(x, True, out)
+    if c[0] == "or" and not truth:
+        for x in c[1]:
+            _facts_of(x, False, out)
+
+
+FACT_HEADS = ("cmp", "and", "or", "not", "var", "call", "attr", "method", "index")
+
+
+def assume(t, c, truth):
+    """t with every occurrence of the condition c (or of its negation) replaced by the truth value it has on this branch."""
+    facts = []
+    _facts_of(c, truth, facts)
+    facts = [(f, v) for f, v in facts if f[0] in FACT_HEADS]
+    if not facts:
+        return t
+    memo = {}
+
+    def go(n):
+        if not isinstance(n, tuple) or not n or not isinstance(n[0], str) or n[0] in ("num", "str", "lit"):
+            return n
+        key = id(n)
+        if key in memo:
+            return memo[key][1]
+        res = None
+        if n[0] in FACT_HEADS:
+            for f, v in facts:
+                if n is f or (n[0] == f[0] and n == f):
+                    res = ("lit", v)
+                    break
+        if res is None:
+            changed = False
+            parts = []
+            for x in n:
+                if isinstance(x, tuple) and x and isinstance(x[0], str):
+                    y = go(x)
+                elif isinstance(x, tuple):
+                    y = tuple(go(z) if isinstance(z, tuple) and z and isinstance(z[0], str) else z for z in x)
+                    if all(p is q for p, q in zip(y, x)):
+                        y = x
+                else:
+                    y = x
+                changed = changed or (y is not x)
+                parts.append(y)
+            res = rebuild_node(tuple(parts)) if changed else n
+        memo[key] = (n, res)
+        return res
+    return go(t)
+
+
+def is_boolish(c):
+    return c[0] in ("cmp", "and", "or", "not") or (c[0] == "lit" and isinstance(c[1], bool)) or (c[0] == "call" and c[1] in ("isinstance", "bool", "all", "any")) \
+        or (c[0] == "method" and c[1] in ("startswith", "endswith", "isdigit", "isalpha"))
+
+
 def ite(c, a, b):
-    if a == b:
+    if c[0] == "lit" and (isinstance(c[1], bool) or c[1] is None):
+        return a if c[1] else b
+    if c[0] == "not":
+        return ite(c[1], b, a)
+    if c[0] == "cmp" and c[1] in ("!=", "is not", "not in"):
+        return ite(mk_not(c), b, a)
+    a = assume(a, c, True)
+    b = assume(b, c, False)
+    if a is b or a == b:
         return a
+    if a == ("lit", True) and b == ("lit", False) and is_boolish(c):
+        return c
+    if a == ("lit", False) and b == ("lit", True) and is_boolish(c):
+        return mk_not(c)
+    if is_boolish(c):
+        # a conditional between a truth value and a boolean expression is a conjunction / disjunction
+        if a == ("lit", False) and is_boolish(b):
+            return mk_bool("and", (mk_not(c), b))
+        if a == ("lit", True) and is_boolish(b):
+            return mk_bool("or", (c, b))
+        if b == ("lit", False) and is_boolish(a):
+            return mk_bool("and", (c, a))
+        if b == ("lit", True) and is_boolish(a):
+            return mk_bool("or", (mk_not(c), a))
+    if c[0] == "cmp" and c[1] in ("<", "<=", ">", ">=") and ((a == c[2] and b == c[3]) or (a == c[3] and b == c[2])):
+        larger = (c[1] in (">", ">=")) == (a == c[2])
+        return mk_minmax("max" if larger else "min", [c[2], c[3]])
+    if b[0] == "ite" and b[2] == a:
+        return ite(mk_bool("or", (c, b[1])), a, b[3])
+    if a[0] == "ite" and a[3] == b:
+        return ite(mk_bool("and", (c, a[1])), a[2], b)
     return ("ite", c, a, b)
+
+
+def mk_minmax(name, args):
+    if name == "min" and len(args) == 2:
+        # clamp written outside-in: min(hi, max(lo, x)) == max(lo, min(hi, x)) for lo <= hi
+        hi = [a for a in args if is_num(a)]
+        inner = [a for a in args if a[0] == "op" and a[1] == "max" and len(a[2]) == 2]
+        if len(hi) == 1 and len(inner) == 1:
+            lo = [a for a in inner[0][2] if is_num(a)]
+            x = [a for a in inner[0][2] if not is_num(a)]
+            if len(lo) == 1 and len(x) == 1 and lo[0][1] <= hi[0][1]:
+                return ("op", "max", (lo[0], ("op", "min", (hi[0], x[0]))))
+    if all(is_num(a) for a in args):
+        return num((max if name == "max" else min)(a[1] for a in args))
+    return ("op", name, tuple(args))     # commutative: operands are aligned, not ordered
 
 
 def binop(op, a, b):
@@ -564,6 +928,7 @@ class Dag:
         self._by_obj: Dict[int, int] = {}
         self._keep: List = []
         self._size: Dict[int, int] = {}
+        self.term: Dict[int, tuple] = {}
 
     def add(self, t) -> int:
         oid = id(t)
@@ -578,6 +943,7 @@ class Dag:
             self.table[key] = i
         self._by_obj[oid] = i
         self._keep.append(t)
+        self.term.setdefault(i, t)
         return i
 
     @staticmethod
@@ -597,7 +963,7 @@ class Dag:
             return ("cmp", t[1]), [t[2], t[3]]
         if k == "ite":
             return ("ite",), [t[1], t[2], t[3]]
-        if k in ("and", "or", "tuple", "fstr"):
+        if k in ("and", "or", "tuple", "fstr", "dict"):
             return (k, len(t[1])), list(t[1])
         if k == "index":
             return ("index",), [t[1], t[2]]
@@ -667,6 +1033,52 @@ class Dag:
 
 
 WEIGHT = {"const": 1, "operator": 2, "binding": 2, "structure": 3}
+REGEX_FUNCS = ("re.fullmatch", "re.match", "re.search", "ref.re_fullmatch", "ref.re_match", "ref.re_search")
+
+
+def regex_norm(pat: str, lowered: bool):
+    """Structure of a regular expression with character classes as explicit sets; when the subject is known to be
+    lower-cased, upper-case letters are dropped from the classes (they can never be matched)."""
+    import re._parser as sre      # stdlib regex parser: the pattern is parsed, never run
+    from re import _constants as C
+
+    def conv(items):
+        out = []
+        for op, av in items:
+            name = str(op)
+            if op is C.IN:
+                chars, cats, negate = set(), [], False
+                for o2, a2 in av:
+                    if o2 is C.NEGATE:
+                        negate = True
+                    elif o2 is C.LITERAL:
+                        chars.add(a2)
+                    elif o2 is C.RANGE:
+                        chars |= set(range(a2[0], a2[1] + 1))
+                    else:
+                        cats.append((str(o2), str(a2)))
+                if lowered and not negate:
+                    chars = {c for c in chars if not (65 <= c <= 90)}
+                out.append(("IN", negate, frozenset(chars), tuple(sorted(cats))))
+            elif op is C.LITERAL:
+                out.append(("IN", False, frozenset({av}), ()))
+            elif op is C.BRANCH:
+                out.append(("BRANCH", tuple(conv(b) for b in av[1])))
+            elif op is C.SUBPATTERN:
+                out.append(("GROUP", av[0] is not None, conv(av[3])))
+            elif op in (C.MAX_REPEAT, C.MIN_REPEAT):
+                out.append((name, av[0], int(av[1]) if av[1] != C.MAXREPEAT else -1, conv(av[2])))
+            else:
+                out.append((name, repr(av)))
+        return tuple(out)
+    try:
+        return conv(sre.parse(pat))
+    except Exception:
+        return ("unparsed", pat)
+
+
+def regex_equiv(p1: str, p2: str, lowered: bool) -> bool:
+    return p1 == p2 or regex_norm(p1, lowered) == regex_norm(p2, lowered)
 
 
 def compare(code, ref, policy: Policy) -> List[Mismatch]:
@@ -723,6 +1135,24 @@ def compare(code, ref, policy: Policy) -> List[Mismatch]:
             return [] if ha[1] == want else [mk("binding", a, b)]
         if ka in ("str", "lit") and kb in ("str", "lit"):
             return [] if ha[1] == hb[1] else [mk("const", a, b)]
+        if ka == "call" and ha == hb and ha[1] in REGEX_FUNCS and len(ca) >= 2 and len(ca) == len(cb):
+            (p1, _), (p2, _) = D.nodes[ca[0]], D.nodes[cb[0]]
+            if p1[0] == "str" and p2[0] == "str" and p1[1] != p2[1]:
+                subj = D.nodes[ca[1]][0]
+                lowered = subj[0] == "method" and subj[1] in ("lower", "casefold")
+                if regex_equiv(p1[1], p2[1], lowered):
+                    return sum((go(x, y) for x, y in zip(ca[1:], cb[1:])), [])
+        if ka == "ite" and kb == "ite":
+            direct = sum((go(x, y) for x, y in zip(ca, cb)), [])
+            if direct and cb[0] in D.term:
+                nt = mk_not(D.term[cb[0]])
+                if nt[0] != "not":
+                    j = D.add(nt)
+                    alt = go(ca[0], j) + go(ca[1], cb[2]) + go(ca[2], cb[1])
+                    if not has_shape(alt) and (has_shape(direct) or wcost(alt) < wcost(direct)):
+                        return alt
+            if not has_shape(direct):
+                return direct
         if ha == hb and len(ca) == len(cb):
             if ka == "op":
                 out = best_assignment(ca, cb)
@@ -856,6 +1286,117 @@ def compare(code, ref, policy: Policy) -> List[Mismatch]:
     return go(ia, ib)
 
 
+def term(src: str, **env):
+    """Normal-form term of an expression written as source text (names not bound by env stay variables; RAISE is the raise marker)."""
+    e = ast.parse(src, mode="eval").body
+    return Extractor(None, None, None, None).ev(e, {"RAISE": RAISE, **env})
+
+
+def final_value(t):
+    """Strip the validation wrappers `cond ? raise : value`."""
+    while t[0] == "ite":
+        if t[2] == RAISE:
+            t = t[3]
+        elif t[3] == RAISE:
+            t = t[2]
+        else:
+            break
+    return t
+
+
+def raise_guards(t):
+    """Conditions under which the function raises before producing its value (each must be FALSE for the value);
+    disjunctions are split into their alternatives."""
+    out = []
+    while t[0] == "ite":
+        if t[2] == RAISE:
+            c = t[1]
+            t = t[3]
+        elif t[3] == RAISE:
+            c = mk_not(t[1])
+            t = t[2]
+        else:
+            break
+        out += list(c[1]) if c[0] == "or" else [c]
+    return out
+
+
+def guards_cover(guards, ref, policy=None) -> bool:
+    """Every alternative of the reference rejection condition is one of the function's raise guards."""
+    policy = policy or Policy()
+    return all(any(not compare(g, d, policy) for g in guards) for d in (ref[1] if ref[0] == "or" else (ref,)))
+
+
+def specialise(t, f):
+    """Partial evaluation: f maps a node to a literal (or returns it unchanged); conditionals decided by literals fold away."""
+    return transform(t, f)
+
+
+def contains_ite(t) -> bool:
+    st, seen = [t], set()
+    while st:
+        x = st.pop()
+        if not isinstance(x, tuple) or id(x) in seen:
+            continue
+        seen.add(id(x))
+        if x and x[0] == "ite":
+            return True
+        st.extend(y for y in x if isinstance(y, tuple))
+    return False
+
+
+def outer_conditions(t):
+    """Conditions of the conditionals that are not inside a branch of another conditional (and contain none themselves)."""
+    out = []
+    seen = set()
+
+    def walk(n, in_branch):
+        if not isinstance(n, tuple) or not n or (id(n), in_branch) in seen:
+            return
+        seen.add((id(n), in_branch))
+        if isinstance(n[0], str) and n[0] == "ite":
+            if not in_branch and not contains_ite(n[1]) and n[1] not in out:
+                out.append(n[1])
+            walk(n[1], in_branch)
+            walk(n[2], True)
+            walk(n[3], True)
+            return
+        for x in n:
+            if isinstance(x, tuple):
+                walk(x, in_branch)
+    walk(t, False)
+    return out
+
+
+def compare_lifted(code, ref, policy, rounds: int = 3):
+    """compare(), and when that leaves mismatches, once more after case-splitting both sides on their outermost
+    conditions (`f(c ? a : b)` and `c ? f(a) : f(b)` are the same function). Returns (mismatches, code, ref) of the
+    variant that aligned best."""
+    ms = compare(code, ref, policy)
+    if not ms:
+        return ms, code, ref
+    c2 = code
+    r2 = substitute(ref, {k: ("var", v) for k, v in policy.var_map.items()}) if policy.var_map else ref     # one vocabulary for the conditions
+    for _ in range(rounds):
+        conds = outer_conditions(c2)
+        conds += [c for c in outer_conditions(r2) if c not in conds]
+        conds = sorted(conds, key=lambda c: (size(c), repr(c)))[:3]
+        if not conds:
+            break
+        before = (c2, r2)
+        for c in conds:
+            c2 = ite(c, c2, c2)
+            r2 = ite(c, r2, r2)
+            ms2 = compare(c2, r2, policy)
+            if not ms2:
+                return ms2, c2, r2
+            if any(m.kind == "shape" for m in ms) and not any(m.kind == "shape" for m in ms2):
+                ms = ms2
+        if (c2, r2) == before:
+            break
+    return ms, code, ref
+
+
 def extract_function(project: Project, fi: FuncInfo):
     """(return expression, final env, nested-function extractor access)."""
     ex = Extractor(project, fi, fi.node, Scope(project, fi), local_prefix=fi.qualname + ".<locals>.")
@@ -902,43 +1443,39 @@ def rebuild_node(t):
     if k == "neg":
         return neg(t[1])
     if k == "ite":
-        c = t[1]
-        if c[0] == "lit" and isinstance(c[1], bool):
-            return t[2] if c[1] else t[3]
-        return ite(c, t[2], t[3])
+        return ite(t[1], t[2], t[3])
     if k == "cmp":
-        a, b = t[2], t[3]
-        if a[0] in ("str", "num", "lit") and b[0] in ("str", "num", "lit"):
-            try:
-                x, y = a[1], b[1]
-                r = {"==": x == y, "!=": x != y, ">=": x >= y, ">": x > y, "<=": x <= y, "<": x < y, "is": x is y, "is not": x is not y}.get(t[1])
-                if r is not None:
-                    return ("lit", bool(r))
-            except TypeError:
-                pass
-        return t
+        r = mk_cmp(t[1], t[2], t[3])
+        return t if r == t else r
     if k in ("and", "or"):
-        vals = []
-        for v in t[1]:
-            if v[0] == "lit" and isinstance(v[1], bool):
-                if k == "and" and not v[1]:
-                    return ("lit", False)
-                if k == "or" and v[1]:
-                    return ("lit", True)
-                continue
-            vals.append(v)
-        if not vals:
-            return ("lit", k == "and")
-        return vals[0] if len(vals) == 1 else (k, tuple(vals))
+        r = mk_bool(k, t[1])
+        return t if r == t else r
     if k == "not":
-        if t[1][0] == "lit" and isinstance(t[1][1], bool):
-            return ("lit", not t[1][1])
-        return t
+        return mk_not(t[1])
     if k == "index":
         base, idx = t[1], t[2]
-        if base[0] == "tuple" and is_num(idx) and isinstance(idx[1], int) and -len(base[1]) <= idx[1] < len(base[1]):
-            return base[1][idx[1]]
+        if base[0] in ("tuple", "str") and is_num(idx) and isinstance(idx[1], int) and not isinstance(idx[1], bool) and -len(base[1]) <= idx[1] < len(base[1]):
+            return base[1][idx[1]] if base[0] == "tuple" else ("str", base[1][idx[1]])
+        if base[0] == "ite":
+            return ite(base[1], rebuild_node(("index", base[2], idx)), rebuild_node(("index", base[3], idx)))
+        if base[0] == "dict":
+            out = ("keyerror",)
+            for kv in reversed(base[1]):
+                out = ite(mk_cmp("==", idx, kv[1][0]), kv[1][1], out)
+            return out
         return t
+    if k == "call" and isinstance(t[1], str):
+        r = mk_call(t[1], t[2])
+        return t if r == t else r
+    if k == "method":
+        r = mk_method(t[1], t[2], t[3])
+        return t if r == t else r
+    if k == "fstr":
+        r = mk_fstr(list(t[1]))
+        return t if r == t else r
+    if k == "op" and t[1] in ("max", "min"):
+        r = mk_minmax(t[1], list(t[2]))
+        return t if r == t else r
     return t
 
 
